@@ -79,6 +79,13 @@ def rand_do(rnd, sp):
     m = MEANING[sp]
     yrs = [2000, 2004, 2019, 2020, 2021, 1900]
     x = rnd.random()
+    if rnd.random() < 0.12:
+        # year/month durations: their rough length (ordering, get_seconds, get_days_and_seconds) counts a year as the
+        # mode's common-year length
+        from harness.drivers import c11
+        return {"op": "Do", "drv": "c11", "case": {"mode": sp, "a": rnd.choice([{"y": 1}, {"y": 2, "mo": 1}, {"y": -1, "d": 3}, {"mo": 12}]),
+                                                     "b": rnd.choice([{"mo": 12}, {"d": 360}, {"d": 365}, {"d": 366}, {"y": 1}]),
+                                                     "c": c11.rand_dur(rnd), "n": rnd.randint(-3, 3)}}
     if x < 0.3:
         p = gen.rand_point(rnd, m, wide=False, whole=True, allow24=False, years=yrs, zones=[(0, 0), (1, 0)])
         p = dict(p, prec="hms", mi=max(p["mi"], 0), ss=max(p["ss"], 0))
